@@ -23,6 +23,10 @@ pub struct WriteRec {
     pub bytes: Vec<u8>,
     /// (dev, ino) of the fds passed in this sendmsg call
     pub fds: Vec<(u64, u64)>,
+    /// logical time (scheduler step) of the call
+    pub step: u64,
+    /// the call was stalled (Pending) before being accepted
+    pub stalled: bool,
 }
 
 pub fn dev_ino(fd: BorrowedFd<'_>) -> (u64, u64) {
@@ -44,6 +48,8 @@ pub struct WireState {
     pub recv_calls: u64,
     pub recv_pending: u64,
     pub bytes_delivered: usize,
+    /// (total bytes delivered so far, logical time) after each successful recvmsg
+    pub delivered_at: Vec<(usize, u64)>,
     pub max_recv_request: usize,
     // ---- outbound (from zbus)
     pub written: Vec<WriteRec>,
@@ -84,6 +90,7 @@ impl Wire {
             recv_calls: 0,
             recv_pending: 0,
             bytes_delivered: 0,
+            delivered_at: Vec::new(),
             max_recv_request: 0,
             written: Vec::new(),
             written_fds: Vec::new(),
@@ -281,6 +288,8 @@ impl ReadHalf for ScriptRead {
                     w.avail.pop_front();
                 }
                 w.bytes_delivered += n;
+                let bd = w.bytes_delivered;
+                w.delivered_at.push((bd, super::sched::now()));
                 return Poll::Ready(Ok((n, fds)));
             }
             if w.staged.is_empty() {
@@ -319,6 +328,7 @@ impl WriteHalf for ScriptWrite {
         let dups: Vec<OwnedFd> = fds.iter().map(|f| f.as_fd().try_clone_to_owned().expect("dup")).collect();
         let mut dups = Some(dups);
         let mut first = true;
+        let mut stalled_this_call = false;
         std::future::poll_fn(move |cx| {
             let mut w = wire.lock();
             if first {
@@ -339,6 +349,7 @@ impl WriteHalf for ScriptWrite {
                 if pct > 0 && w.wrng.chance(pct, 100) {
                     w.stalled = true;
                     w.write_stalls += 1;
+                    stalled_this_call = true;
                 }
             }
             if w.failed || w.write_closed {
@@ -351,7 +362,8 @@ impl WriteHalf for ScriptWrite {
             let cap = w.max_write.min(buffer.len()).max(1);
             let n = if cap >= buffer.len() && w.max_write == usize::MAX { buffer.len() } else { 1 + w.wrng.usize_below(cap) };
             let n = n.min(buffer.len());
-            w.written.push(WriteRec { bytes: buffer[..n].to_vec(), fds: fd_ids.clone() });
+            let was_stalled = stalled_this_call;
+            w.written.push(WriteRec { bytes: buffer[..n].to_vec(), fds: fd_ids.clone(), step: super::sched::now(), stalled: was_stalled });
             w.written_fds.push(dups.take().unwrap_or_default());
             Poll::Ready(Ok(n))
         })
